@@ -33,3 +33,54 @@ PROPS['C01'] = dict(
     assumptions=['system level (reserves after = reserves before + offer / - payout) relies on the pair handler contracts (C02) and the chain model'],
     explanation='compute_swap: outside the recorded rounding window (known finding C01-W1) n*(x+a) <= y*a, (x+a)*(y-n) >= x*y and n < y; inside it n <= floor(y*a/(x+a)) + 1 and n <= y.',
 )
+
+T_CW = 'cosmwasm_std 1.1.8 / cw20 1.0.0 data types re-declared with the same public shape; Uint128::{checked_sub,checked_mul,multiply_ratio}, Decimal::from_ratio, Uint128*Decimal (256-bit intermediate, floor, abort on zero divisor / >128-bit result) as read from the dependency source (shim_cw.rs, external_body)'
+T_API = 'Api::{addr_validate, addr_canonicalize, addr_humanize}: validate keeps the text; canonicalize/humanize are an uninterpreted deterministic partial bijection'
+T_STORE = 'cw-storage-plus Item: load returns what the last save stored, items do not alias (modelled as fields of a storage record)'
+T_QUERY = 'packages/haloswap/src/querier.rs (one querier.query JSON round trip each): results are projections of one ghost ledger (bank balances, cw20 balances, cw20 supplies)'
+T_SERDE = 'serde: to_binary is an uninterpreted function of the value, from_binary an uninterpreted deterministic function of the bytes'
+T_DERIVE2 = '#[cw_serde] derives (Clone, PartialEq) are structural; thiserror #[from] and the ? operator convert errors through the From impls (vstd spec_from axioms)'
+T_R4 = 'rewrite R4: std iterator adapters / Option::unwrap_or_else / Vec::contains replaced by helper loops that are themselves verified in the same file (helpers.rs); std is trusted to behave like them'
+T_R2 = 'rewrite R2: format!(..) and Response::add_attribute(s) are dropped: event attributes and error strings are NOT verified (message payloads are)'
+T_DEC = 'Decimal -> Decimal256 (implemented in math.rs through text) is value preserving (C18 not applicable)'
+T_CHAIN = 'chain semantics (bank send, cw20-base transfer/transfer_from/mint/burn/send-hook order, atomic revert of a failed transaction) are NOT verified here: the handler contracts pin the exact messages emitted, the ledger effect of those messages is the documented behaviour of the bank module and cw20-base 1.0.0'
+
+PAIR_TRUST = [T_VERUS, T_U256, T_UINT128, T_INTO, T_DERIVE, T_CW, T_API, T_STORE, T_QUERY, T_SERDE, T_DERIVE2, T_R4, T_R2, T_DEC, T_OVERFLOW]
+
+PROPS['C02'] = dict(
+    units=[('u_pair.rs', 'B', None)], min_tagged=12, trusted=PAIR_TRUST,
+    assumptions=[T_CHAIN, 'the response attributes offer_amount/return_amount are not verified (R2); the amount in the transfer message is'],
+    explanation='execute(Swap), receive_cw20(Swap) and swap carry postconditions pinning: native-only direct swaps with attached == declared; hook amount == cw20 amount, hook sender is a pool cw20 AND the named asset is that token; pricing on (reserve - offer, other reserve); exactly one transfer of n of the ask asset to the receiver (none when n == 0); no storage write.',
+)
+PROPS['C04'] = dict(
+    units=[('u_pair.rs', 'B', None)], min_tagged=4, trusted=PAIR_TRUST,
+    assumptions=[T_CHAIN, 'supply and holder balance fall by exactly a because the hook is only accepted from the LP token (proved) after cw20 Send moved a to the pair, and the single Burn{a} message burns the pair\'s own balance (cw20-base semantics)'],
+    explanation='withdraw_liquidity: messages are exactly [pay asset0 x0, pay asset1 x1, burn a] with x_i = floor(r_i*floor(a*D/S)/D); lemma_c04 gives r_i*a/S - r_i/D - 1 < x_i <= r_i*a/S for all naturals.',
+)
+PROPS['C05'] = dict(
+    units=[('u_pair.rs', 'B', None)], min_tagged=10, trusted=PAIR_TRUST,
+    assumptions=[T_CHAIN, 'the LP token contract never spends its own balance (cw20-base has no such path): the reserved unit minted to the LP token address is unspendable'],
+    explanation='calculate_lp_token_amount_to_user and provide_liquidity: share is min_i floor(d_i*S/r_i) against reserves net of native deposits (min-1 < m <= min, m >= 1), first provision gated by whitelist and minimums with floor(sqrt(d0*d1)) split 1 + (m-1); deposits pulled are exactly the declared amounts via TransferFrom(owner = caller) / attached funds.',
+)
+PROPS['C09'] = dict(
+    units=[('u_pair.rs', 'B', None)], min_tagged=5, trusted=PAIR_TRUST,
+    assumptions=['"otherwise nothing changes" = the handler returns Err and the chain reverts the transaction'],
+    explanation='assert_sent_native_token_balance: Ok iff declared == amount of the first attached coin of that denom (0 when absent); provide_liquidity checks both declared assets before anything else (loop invariant), swap checks its offer first.',
+)
+PROPS['C10'] = dict(
+    units=[('u_pair.rs', 'B', None)], min_tagged=6, trusted=PAIR_TRUST,
+    assumptions=['asset decimals differ by at most 19 (10u64.pow aborts above; the property ranges over 0..18)'],
+    explanation='assert_max_spread: Ok => the guard predicate is false, Err(MaxSpreadAssertion) => it is true, and lemma_c10_belief / lemma_c10_plain turn the guard into the statement\'s four inequalities for all naturals.',
+)
+PROPS['C12'] = dict(
+    units=[('u_pair.rs', 'B', None)], min_tagged=8, trusted=PAIR_TRUST,
+    assumptions=[T_CHAIN, 'router simulate loops are covered by the router unit (see C13) once built; this check covers pair quotes and the closed form'],
+    explanation='query_simulation pins (n, spread, c) to the same spec functions as swap does at (reserve before deposit, other reserve, offer); compute_offer_amount is pinned to the closed form with the never-above and rounding-bound lemmas; query_reverse_simulation passes (other reserve, ask reserve, ask).',
+)
+PROPS['C15'] = dict(
+    units=[('u_pair.rs', 'B', None)], min_tagged=8, trusted=PAIR_TRUST,
+    assumptions=[],
+    explanation='assert_slippage_tolerance / calc_price_drop / calc_slippage_tolerance: exact guard predicate in both directions, tolerance > 1 always an error, and lemma_c15 relates the guard to the statement\'s two inequalities; provide_liquidity passes deposits and reserves net of native deposits.',
+)
+for _p in ('C01', 'C06'):
+    PROPS[_p]['units'] = [('u_formulas.rs', 'B', None)]
